@@ -601,6 +601,34 @@ theorem SpOK_done (c : Cfg) (t : List Ev) (r : Resp) (code : Option Nat)
     (h : backPart t = .spass 0 (sendRun c.send 0) :: replyEvs r code) : SpOK c t :=
   Or.inr ⟨_, h, replyEvs_shape r code⟩
 
+theorem isDenyEv_eq : isDenyEv = denyEv := by
+  funext e; cases e <;> rfl
+
+theorem upfEnabled_nodeny (c : Cfg) (g : St) (h : upfEnabled c g = true) : ¬ DenyIn g.trace := by
+  intro ⟨e, he, hd⟩
+  simp only [upfEnabled, Bool.and_eq_true, Bool.not_eq_true', List.any_eq_false] at h
+  have := h.1.2 e he
+  rw [isDenyEv_eq, hd] at this; exact this rfl
+
+/-- [proxy8] `processError` at the end of the UpFilter `case` when the upstream stream of the accepted response was reset during
+the sender pass (no filter answered): retried when the regenerated decision on the reset reason fires, else the error reply
+of the reason replaces the response and the response pass goes on with it (the repaired line of a3a21969e: `err = nil`) -/
+theorem G_reset_upf (c : Cfg) (g : St) (hnh : g.halted = false) (hc : g.cleaned = false) (hr : g.upstreamReset = true)
+    (hd : g.direct = false) (hph : g.phase = UpFilter) (hpd : g.procDone = false)
+    (hna : ¬ answeredIn g.trace) (hback : backPart g.trace = [theRun c]) (ho : c.env.oneway = false)
+    (hin : g.inner ≤ g.phase + 1) : Ginv c (afterPE c g) := by
+  rw [afterPE_reset c g hc hr, if_neg (by simp [ho])]
+  split
+  · rw [if_neg (by simp [hd])]
+    exact Ginv_ret c _ Retry (by simp [setRetry, liftF, hnh]) (fun h => absurd h hna) (Or.inr ⟨[], hback, rfl⟩)
+      (fun h => by cases h) (fun _ h => absurd rfl h)
+  · rw [if_neg (by simp [hph])]
+    refine Ginv_next c (consumeDirect (onUpstreamReset c.env.resetCode g)) (by simpa [consumeDirect, onUpstreamReset, liftF] using hnh)
+      (fun h => absurd h hna) ?_ hin
+    show PhaseData c _ (g.phase + 1)
+    rw [hph]
+    exact PhaseData_13 c _ ⟨rfl, hc, rfl, hpd⟩ rfl rfl hback ho
+
 theorem phaseCase_Ginv_back (c : Cfg) (s : St) (hnh : s.halted = false) (hd : PhaseData c s.view s.phase)
     (hin : s.inner ≤ s.phase + 1) (hans : Ans s.view) (hge : 12 ≤ s.phase) : Ginv c (phaseCase c s) := by
   have hcom : Common s.view := hd.1
@@ -612,6 +640,7 @@ theorem phaseCase_Ginv_back (c : Cfg) (s : St) (hnh : s.halted = false) (hd : Ph
   any_goals omega
   · -- UpFilter: the sender filters run once, in order
     rw [pc12 c s h]
+    show Ginv c (afterPE c (upfEvent c (sendPass c s)))
     obtain ⟨hresp, hrst, hback, hsf, ho⟩ := PhaseData_12_of c _ (by rw [← h]; exact hd)
     have hback : backPart s.trace = [] := hback
     have hsf : SFresh s.toFState := hsf
@@ -640,6 +669,27 @@ theorem phaseCase_Ginv_back (c : Cfg) (s : St) (hnh : s.halted = false) (hd : Ph
     have gB : backPart g.trace = [theRun c] := by
       rw [gT, backPart_snoc, hback]; rfl
     have gAns : Ans g.view := Ans_congr hans gResp gSv (by show recvVerdicts g.trace = _; rw [gT]; exact recvVerdicts_snoc_other _ _ rfl)
+    have hterm : g.cleaned = true → ∃ st invs, Ev.spass st invs ∈ g.trace ∧ ∃ iv ∈ invs, iv.2 = .termination := by
+      intro hc
+      have hc' : (runSend c.send s.toFState).1.cleaned = true := by rw [← gF]; exact hc
+      rcases f6 hc' with h' | ⟨iv, hiv, ht⟩
+      · rw [show s.toFState.cleaned = false from hs_clean] at h'; cases h'
+      · refine ⟨0, sendRun c.send 0, ?_, iv, ?_, ht⟩
+        · show theRun c ∈ g.trace; rw [gT]; simp
+        · rw [← hrun]; exact hiv
+    by_cases he : upfEnabled c g = true
+    · -- [proxy8] the upstream stream of the accepted response is reset during the sender pass
+      have e2 : upfEvent c g = { g with upstreamReset := true } := by simp [upfEvent, he]
+      rw [e2]
+      by_cases hc : g.cleaned = true
+      · exact G_cleaned c _ gH hc gAns (Or.inr ⟨[], gB, rfl⟩) ⟨hc, Or.inl (Or.inr (hterm hc))⟩
+      · have hc : g.cleaned = false := by simpa using hc
+        exact G_reset_upf c _ gH hc rfl gDir (by rw [show ({ g with upstreamReset := true } : St).phase = g.phase from rfl, gP, h])
+          gD (fun ha => upfEnabled_nodeny c g he (answeredIn_deny ha)) gB ho
+          (by rw [show ({ g with upstreamReset := true } : St).inner = g.inner from rfl,
+                show ({ g with upstreamReset := true } : St).phase = g.phase from rfl, gI, gP]; exact hin)
+    have e2 : upfEvent c g = g := by simp [upfEvent, he]
+    rw [e2]
     by_cases hc : g.cleaned = true
     · refine G_cleaned c g gH hc gAns (Or.inr ⟨[], gB, rfl⟩) ⟨hc, Or.inl (Or.inr ?_)⟩
       have hc' : (runSend c.send s.toFState).1.cleaned = true := by rw [← gF]; exact hc
@@ -929,7 +979,7 @@ theorem phaseCase_ctl (c : Cfg) (s : St) : Ctl s (phaseCase c s) := by
     · apply afterPE_ctl
       · unfold deliver; split <;> (try split) <;> rfl
       · unfold deliver; split <;> (try split) <;> rfl
-  · rw [pc12 c s h]; exact afterPE_ctl c s _ (by simp [sendPass, emit, liftF]) (by simp [sendPass, emit, liftF])
+  · rw [pc12 c s h]; exact afterPE_ctl c s _ (by simp [sendPassE, sendPass, emit, liftF]) (by simp [sendPassE, sendPass, emit, liftF])
   · rw [pc13 c s h]; split
     · split
       · rw [afterPEd_true c (setRetry s) (by simp [setRetry, liftF])]
